@@ -61,7 +61,8 @@ def canon_text(t: str):
 
 def canon_result(kind, r):
     if r[0] != "ok":
-        return r
+        # a refusal is compared by its class: WHICH of several unsupported lines is named first is not an output line
+        return [r[0], str(r[1]).split(":")[0]]
     if kind in ("cpp", "py"):
         return ["ok", canon_text(r[1])]
     return ["ok", r[1]]
@@ -177,9 +178,21 @@ def run(ctx):
         hdoc.append(["line", ["D", "D0", top, None, [["D", "K(1)(1270)bar-", None, None, [A.two_body(rng, r2), ["D", b, None, None, []]]],
                                                      ["D", "pi+", None, None, []]]]] + A.coupling(rng))
     hdoc += A.required_families(hdoc, rng)
+    # a second file with several DIFFERENT unsupported spin structures (scalar before vector, bachelor before the sub-resonance,
+    # tensor + vector): whatever the converters do with it - refuse it, or say what is missing - is the same under every hash seed
+    udoc = [["event_type", ["D0", "K-", "pi+", "pi+", "pi-"]]]
+    udoc.append(["line", ["D", "D0", None, None, [A.two_body(rng, "PiPi00", tag=False), A.two_body(rng, "K*(892)bar0", tag=False)]]] + A.coupling(rng))
+    r2, b = A.CASCADE["K(1)(1270)bar-"][0]
+    udoc.append(["line", ["D", "D0", None, None, [["D", "K(1)(1270)bar-", None, None, [["D", b, None, None, []], A.two_body(rng, r2, tag=False)]],
+                                                  ["D", "pi+", None, None, []]]]] + A.coupling(rng))
+    udoc.append(["line", ["D", "D0", None, None, [["D", "K(2)*(1430)bar-", None, None, [["D", "pi-", None, None, []], A.two_body(rng, "K*(892)bar0", tag=False)]],
+                                                  ["D", "pi+", None, None, []]]]] + A.coupling(rng))
+    udoc.append(["line", ["D", "D0", None, None, [A.two_body(rng, "K*(892)bar0", tag=False), A.two_body(rng, "rho(770)0", tag=False)]]] + A.coupling(rng))
+    upath = os.path.join(tmp, "unsupported.txt")
+    open(upath, "w").write(A.render_amp(udoc))
     hpath = os.path.join(tmp, "hashseed.txt")
     open(hpath, "w").write(A.render_amp(hdoc))
-    target = [["cpp", hpath], ["py", hpath], ["cpp", pool[0]], ["py", pool[0]]]
+    target = [["cpp", hpath], ["py", hpath], ["cpp", pool[0]], ["py", pool[0]], ["cpp", upath], ["py", upath]]
     with ThreadPoolExecutor(max_workers=12) as ex:
         by_seed = list(ex.map(lambda s: worker(target, hashseed=s), seeds + [seeds[0]]))
     base = [canon_result(k, r) for (k, _), r in zip(target, by_seed[0])]
